@@ -355,8 +355,21 @@ namespace
             sh.hi = sh.lo + zsize;
             bool exhausted = false, refilled = false;
             int tagc = 0;
+            // a second pool of another geometry works next to the one under test: one cell taken and given back per operation
+            std::unique_ptr<char[]> by_zone(new char[3 * 24]);
+            igris::pool by_pool(by_zone.get(), 3 * 24, 24);
+            auto bystander = [&]() {
+                void *c1 = by_pool.get(), *c2 = by_pool.get();
+                if (!c1 || !c2 || c1 == c2 || (char *)c1 < by_zone.get() || (char *)c1 >= by_zone.get() + 72 || by_pool.avail() != 1)
+                    violate("C10/bystander", "a second pool working next to the one under test handed out %p and %p and reports %zu free cells of 3", c1, c2, by_pool.avail());
+                memset(c1, 0xEE, 24);
+                by_pool.put(c2);
+                by_pool.put(c1);
+                if (by_pool.avail() != 3) violate("C10/bystander", "a second pool working next to the one under test reports %zu free cells after everything was given back", by_pool.avail());
+            };
             auto avail = [&]() -> size_t { return kind == 0 ? pool_avail(&ph) : kind == 1 ? ip.avail() : sop->avail(); };
             auto check = [&](const char *when) {
+                bystander();
                 size_t want = elems - sh.live.size();
                 if (avail() != want) violate(std::string("C10/pool-avail@") + name(), "%s: avail()=%zu, capacity %zu minus %zu live blocks = %zu", when, avail(), elems, sh.live.size(), want);
                 if (kind == 1)
